@@ -1023,6 +1023,14 @@ func (m *monState) onEnd() {
 		return
 	}
 	s := run.pre
+	// C11 r2b: what the store holds after Shutdown has returned stays the final state (a save that was in flight
+	// must not land afterwards with an older snapshot)
+	if w.shutdownReturned > 0 && w.mem != nil && run.sc.Cfg.PSaveErr == 0 {
+		if d := diffStore(w.mem.last(), s); d != "" {
+			run.violate("C11", "r2b", "Shutdown returned at step %d with the store matching the final state, but at the end of the run the last completed save holds something else: %s", w.shutdownReturned, d)
+		}
+		run.probe("store_checked_after_shutdown")
+	}
 	for _, name := range m.order {
 		a := m.acc[name]
 		if a.World != w.id {
